@@ -423,9 +423,10 @@ mod verif_c05_frames_payload {
     }
 
     #[kani::proof]
-    #[kani::unwind(7)]
+    #[kani::unwind(10)]
     #[kani::stub(alloc::fmt::format, fmt_stub)]
     #[kani::stub(crate::varint::be_varint, be_varint_spec)]
+    #[kani::stub(alloc::string::String::from_utf8_lossy, lossy_stub)]
     fn app_close_roundtrip() {
         let f = ConnectionCloseFrame::new_app(vi(), any_reason());
         let r = roundtrip::<_, 20>(&f, FrameType::ConnectionClose(Layer::App), |fr| match fr {
@@ -481,9 +482,10 @@ mod verif_c05_frames_payload {
     }
 
     #[kani::proof]
-    #[kani::unwind(7)]
+    #[kani::unwind(10)]
     #[kani::stub(alloc::fmt::format, fmt_stub)]
     #[kani::stub(crate::varint::be_varint, be_varint_spec)]
+    #[kani::stub(alloc::string::String::from_utf8_lossy, lossy_stub)]
     fn quic_close_roundtrip() {
         // known findings excluded here (pinned by quic_close_ext_frame_type_* below): a "Frame Type" field that is
         // not a one-byte RFC 9000 frame type (the project's own 4-byte types, DATAGRAM and ErrorFrameType::Ext)
@@ -506,9 +508,10 @@ mod verif_c05_frames_payload {
     /// 0x3d7e90..0x3d7e96, what `From<frame::Error> for QuicError` produces for e.g. ADD_ADDRESS in an Initial packet):
     /// `encoding_size()` counts 1 byte for the Frame Type field, `put_frame` writes 4.
     #[kani::proof]
-    #[kani::unwind(7)]
+    #[kani::unwind(10)]
     #[kani::stub(alloc::fmt::format, fmt_stub)]
     #[kani::stub(crate::varint::be_varint, be_varint_spec)]
+    #[kani::stub(alloc::string::String::from_utf8_lossy, lossy_stub)]
     fn quic_close_ext_frame_type_size() {
         let f = ConnectionCloseFrame::new_quic(
             crate::error::ErrorKind::FrameEncoding,
@@ -527,9 +530,10 @@ mod verif_c05_frames_payload {
     /// not know (`ErrorFrameType::Ext`, e.g. a peer's extension frame): it is encoded, but `be_quic_close_frame`
     /// only accepts known frame types and refuses the whole frame.
     #[kani::proof]
-    #[kani::unwind(7)]
+    #[kani::unwind(10)]
     #[kani::stub(alloc::fmt::format, fmt_stub)]
     #[kani::stub(crate::varint::be_varint, be_varint_spec)]
+    #[kani::stub(alloc::string::String::from_utf8_lossy, lossy_stub)]
     fn quic_close_unknown_frame_type_decodes() {
         let f = ConnectionCloseFrame::new_quic(
             crate::error::ErrorKind::ProtocolViolation,
